@@ -198,6 +198,19 @@ def generated_tasks(tier, seed):
         if i % 5 == 0:
             tasks.append({"text": text, "label": f"[after the same domain with the roles of t1 and t2 exchanged] pre {sexpr.render(pre)} "
                                                   f"eff {sexpr.render(eff)}", "objects": dict(G.OBJECTS), "after_other": swapped_types(text)})
+    # :constants sections of several shapes: groups of one type twice, a subtype, constants of the root type first / in
+    # between / last, a trailing name without a type
+    for label, consts in (("two_groups_same_type", ["k", "-", "t1", "c2", "-", "t2", "c3", "c4", "-", "t1"]),
+                          ("subtype_and_root_last", ["k", "-", "t1", "c5", "-", "t3", "c6", "-", "object"]),
+                          ("root_first", ["c0", "-", "object", "k", "-", "t1", "c5", "-", "t3"]),
+                          ("root_in_between", ["k", "-", "t1", "c0", "c9", "-", "object", "c2", "-", "t2"]),
+                          ("trailing_untyped", ["k", "-", "t1", "c7", "c8"])):
+        d = G.domain_tree([("act", G.PARAM_LISTS["P2"], ["and", ["p", "k"], ["forall", ["?z", "-", "t1"], ["or", ["p", "?z"], ["q", "?x", "?z"]]]],
+                            ["and", ["q", "?x", "k"], ["forall", ["?z", "-", "t2"], ["when", ["s", "?z"], ["not", ["s", "?z"]]]]])], const=True)
+        for sec in d:
+            if isinstance(sec, list) and sec and sec[0] == ":constants":
+                sec[1:] = consts
+        tasks.append({"text": G.pretty(d), "label": "constants " + label, "objects": dict(G.OBJECTS)})
     return tasks
 
 
